@@ -229,3 +229,14 @@ def mid_lengths(ctx, whats, backends=("asm", "c32")):
     parallel(lambda j: run_harness(ctx, j[0], j[1], label=j[2], timeout=max(60, ctx.remaining())), jobs)
     ctx.stats["mid_length_calls"] = ctx.stats.get("mid_length_calls", 0) + len(jobs)
     ctx.assumptions.append("moderately long inputs: %s bytes per function on back ends %s against an independent streaming 64-bit reference" % (MID_LENGTHS, list(backends)))
+
+
+def align_jobs(ctx, jobs, pick, offs=None):
+    """the selected harness jobs again with every canary-guarded buffer (outputs, and inputs allocated through the harness) starting k bytes off a 16-byte boundary"""
+    if offs is None:
+        offs = (1, 2, 3, 4, 5, 6, 7) if ctx.thorough else (3, 5)
+    sel = [(j, o) for j in jobs if pick(j) for o in offs]
+    parallel(lambda jo: run_harness(ctx, jo[0][0], jo[0][1], label="%s+align%d" % (jo[0][2], jo[1]), env={"HX_OFF": str(jo[1])}), sel)
+    ctx.stats["alignment_jobs"] = ctx.stats.get("alignment_jobs", 0) + len(sel)
+    if sel:
+        ctx.assumptions.append("alignment: %d harness jobs repeated with all harness buffers %s bytes off a 16-byte boundary" % (len(sel), list(offs)))
